@@ -112,7 +112,9 @@ Definition fmt2 (q : Q) : string :=
 Definition near_half (q : Q) : bool :=
   let a := (Qabs q * 100)%Q in
   let r := (a - inject_Z (Qfloor a))%Q in
-  Qle_bool (Qabs (r - (1 # 2))%Q) (1 # 1000000).
+  (* float64 carries 53 bits: at magnitude a the product value*factor is off by up to a few
+     ulps (a * 2^-52 each), so the window grows with a *)
+  Qle_bool (Qabs (r - (1 # 2))%Q) ((1 # 1000000) + a * (1 # 281474976710656))%Q.
 
 Definition scaled_label (uts : list unit_type) (value : Z) (from to : string) : string :=
   let '(v, u) := scale uts value from to in
